@@ -1,8 +1,11 @@
 """C02 - Problem/Recovery on hard changes, suppression, release.  Generators + classification."""
-import random, itertools, re
+import random, itertools, re, os, collections
 from . import ckgen
 
 PID = 'C02'
+# the extended search for a failing input (only run when a proof or the correspondence broke without an oracle hit) starts with the
+# directed families and is capped: the quick tier stays below two minutes also in that case
+os.environ.setdefault('VERIF_SEARCH_S', '60')
 HEADER = ['obs nr ref']
 T0 = ckgen.T0
 CORR_NAME = 'combined checkable model Ck/CkFull.v vs Host/Service/Downtime/Comment/Dependency objects'
@@ -15,6 +18,10 @@ RULE = ('operation sequences of length 4 (quick: every fourth one of the complet
         'a family with flapping enabled in which the detector (simulated exactly by the generator) is driven to toggle by alternating results before / while / after a long downtime begins, '
         'FlappingStart/FlappingEnd are withheld, and the first hard changes of an episode follow inside the same suppression from hard problem, hard OK and hard OK with a stale non-OK remembered state, then release '
         '(extra.episodes_begun_while_flapping_bit_pending counts episodes whose first state notification is stashed while a flapping bit is pending); '
+        'a family in which flapping ends or starts on the very result that is a hard change (the generator searches, with an exact copy of the detector, the number of steady results after which '
+        'the soft-to-hard step of an unchanged non-OK state, max 2..4, or a further non-OK result of a volatile object in a hard problem ends the flapping; flapping starting on a hard problem / hard recovery / '
+        'change between hard problem states; control: ending on a steady OK), each with no reason, inside a downtime begun before the flapping or just before the result, acknowledged, unreachable, '
+        'with state events pending from an earlier episode, paused, then release (extra.flapping_toggle_on_hard_change counts, on the implementation traces, flapping ends whose state notification was sent / stashed); '
         'non-trivial = at least one state notification was requested or withheld in the case; distinct = distinct script text')
 TRUSTED = ['model: coq/Ck/CkFull.v (transcription of Checkable::ProcessCheckResult, FireSuppressedNotifications, NotificationReasonSuppressed/Applies, '
            'IsLikelyToBeCheckedSoon, acknowledgement and downtime entry points; flapping in exact 1/100 % arithmetic); C02 proofs in coq/Ck/CkSupp*.v',
@@ -276,9 +283,301 @@ def flap_case(rnd, kind, start, where):
     return {'lines': lines, 'tags': {'family': 'flapping-inside-suppression'}}
 
 
+class _Obj:
+    """Rough state type / attempt bookkeeping used ONLY to aim the generator (what counts is measured on the implementation's
+    traces in extra_stats: flapping_end_with_state_notification_*)."""
+
+    def __init__(self, host, mx, vol):
+        self.host, self.mx, self.vol = host, mx, vol
+        self.state, self.hard, self.att = 0, False, 1
+        self.fresh = True
+
+    def ok(self, s):
+        return s in (0, 1) if self.host else s == 0
+
+    def feed(self, s):
+        """-> 'problem' / 'recovery' / None: would a state notification be due (flapping and reasons aside)"""
+        old, oldhard = self.state, self.hard
+        out = None
+        if self.ok(s):
+            if not self.ok(old) and oldhard and not self.fresh:
+                out = 'recovery'
+            self.hard, self.att = True, 1
+        else:
+            if self.ok(old) or self.fresh:
+                self.att = 1
+                self.hard = self.mx == 1
+                if self.hard:
+                    out = 'problem'
+            elif not oldhard:
+                self.att += 1
+                if self.att >= self.mx:
+                    self.hard, self.att = True, 1
+                    out = 'problem'
+            else:
+                hs = (lambda x: x in (0, 1)) if self.host else (lambda x: x)
+                if hs(s) != hs(old) or (self.vol):
+                    out = 'problem'
+        self.state = s
+        self.fresh = False
+        return out
+
+
+TOGGLE_GOALS = ('end-soft-to-hard', 'end-volatile-repeat', 'end-steady-ok', 'start-hard-change')
+TOGGLE_REASONS = ('none', 'downtime', 'ack', 'unreachable', 'pending', 'paused', 'downtime-early')
+
+
+def toggle_case(rnd, kind, goal, reason):
+    """The flapping detector (simulated exactly: FlapSim) toggles on the very result that is a hard change:
+    end-soft-to-hard     max >= 2, flapping ends on the result that takes an UNCHANGED non-OK state from soft to hard
+                         (a result with a state change raises the flapping value, so flapping can only end on an unchanged state);
+    end-volatile-repeat  volatile object resting in a hard problem, flapping ends on a further non-OK result;
+    end-steady-ok        control: flapping ends on a steady OK result (no state notification due);
+    start-hard-change    flapping starts on a hard problem / hard recovery / change between hard problem states;
+    each with no reason / inside a downtime (begun before the flapping or just before the result) / acknowledged / unreachable /
+    state events still pending from an earlier episode / paused; afterwards the reason is lifted and the timer fires."""
+    host = kind == 'host'
+    vol = 1 if goal == 'end-volatile-repeat' else (1 if rnd.random() < 0.15 else 0)
+    if goal == 'end-soft-to-hard':
+        mx = rnd.choice((2, 2, 3, 3, 4))
+    elif goal == 'start-hard-change':
+        mx = rnd.choice((1, 1, 1, 2))
+    else:
+        mx = rnd.choice((1, 2, 3))
+    for _attempt in range(40):
+        c = _toggle_try(rnd, kind, host, vol, mx, goal, reason)
+        if c is not None:
+            return c
+    return None
+
+
+def _toggle_try(rnd, kind, host, vol, mx, goal, reason):
+    lines = ['now %d' % T0, 'ckf_new kind=%s max=%d vol=%d flap=1 active=0 ci=300' % (kind, mx, vol)]
+    t = [T0]
+    sim = FlapSim()
+    ob = _Obj(host, mx, vol)
+    ndt = [0]
+    bad = 2 if host else rnd.choice((1, 2, 2, 3))
+
+    def res(s):
+        t[0] += rnd.choice((5, 10, 10, 30))
+        lines.append('now %d' % t[0])
+        lines.append('crf state=%d' % s)
+        ob.feed(s)
+        return sim.feed(s)
+
+    def op(l):
+        t[0] += rnd.choice((1, 5))
+        lines.append('now %d' % t[0])
+        lines.append(l)
+
+    def dt():
+        ndt[0] += 1
+        op('dt_add id=%d fixed=1 start=%d end=%d dur=0 trig=0 parent=0 owned=0' % (ndt[0], t[0] + 1, t[0] + 100000))
+
+    def undt():
+        op('dt_remove id=%d children=0 reason=user' % ndt[0])
+
+    lifted = []
+
+    def begin_reason():
+        if reason == 'downtime':
+            dt(); lifted.append('dt')
+        elif reason == 'ack':
+            if not ob.ok(ob.state):
+                op('ack via=api sticky=%d notify=0 pers=0 eg=0 expiry=0' % rnd.choice((0, 1, 1))); lifted.append('ack')
+        elif reason == 'unreachable':
+            op('parent up=0'); lifted.append('parent')
+        elif reason == 'paused':
+            op('pause p=1'); lifted.append('pause')
+
+    res(0)
+    if reason == 'pending':
+        # an earlier episode whose events are still pending (downtime removed, timer not yet fired)
+        if rnd.random() < 0.5:
+            # only the Recovery bit pending (remembered state: the hard problem): the Problem due later adds its bit
+            for _ in range(mx):
+                res(bad)
+            dt()
+            res(0)
+        else:
+            dt()
+            for _ in range(mx):
+                res(bad)
+            if rnd.random() < 0.5:
+                res(0)
+        undt()
+    elif reason == 'downtime-early':
+        dt(); lifted.append('dt')
+
+    if goal == 'start-hard-change':
+        # alternate between two states whose every change is a hard change; the reason is in place before the flapping starts
+        if mx > 1 or (not host and rnd.random() < 0.4):
+            for _ in range(mx):
+                res(bad)
+            a_, b_ = (bad, (3 if bad != 3 else 2)) if (host or rnd.random() < 0.7) else (bad, 0)
+            if host:
+                a_, b_ = 2, 0
+                if mx > 1:
+                    return None
+        else:
+            a_, b_ = 0, bad
+        k = rnd.randint(0, 4)
+        cur = ob.state
+        for _ in range(k):
+            cur = b_ if cur == a_ else a_
+            res(cur)
+        if sim.flapping:
+            return None
+        begin_reason()
+        n = 0
+        while not sim.flapping and n < 24:
+            cur = b_ if cur == a_ else a_
+            res(cur)
+            n += 1
+        if not sim.flapping:
+            return None
+        for _ in range(rnd.choice((0, 1, 2))):
+            cur = b_ if cur == a_ else a_
+            res(cur)
+        # calm down again (FlappingEnd), then one more hard change
+        n = 0
+        while sim.flapping and n < 40:
+            res(cur)
+            n += 1
+        nxt = 0 if not ob.ok(cur) else bad
+        for _ in range(mx if nxt else 1):
+            res(nxt)
+    else:
+        # phase A: alternate until the detector says flapping (hosts sometimes between raw OK and WARNING: both Up)
+        other = 1 if (host and rnd.random() < 0.25) else bad
+        cur = 0
+        n = 0
+        while not sim.flapping and n < 24:
+            cur = other if cur == 0 else 0
+            res(cur)
+            n += 1
+        if not sim.flapping:
+            return None
+        for _ in range(rnd.choice((0, 0, 1, 2, 3))):
+            cur = other if cur == 0 else 0
+            res(cur)
+        when = rnd.choice(('early', 'late', 'late'))
+        if goal == 'end-steady-ok':
+            if reason not in ('pending', 'downtime-early', 'ack') and when == 'early':
+                begin_reason()
+            n = 0
+            while sim.flapping and n < 40:
+                if n == 3 and not lifted and reason != 'ack':
+                    begin_reason()
+                res(0)
+                n += 1
+        elif goal == 'end-volatile-repeat':
+            # rest in a hard problem; every further non-OK result is a (withheld) Problem while flapping, the one ending it is due
+            if ob.ok(cur):
+                res(bad)
+            while not ob.hard:
+                res(bad)
+            if when == 'early':
+                begin_reason()
+            # how many steady results until the detector lets go?
+            probe = _copy_sim(sim)
+            need = 0
+            while probe.flapping and need < 40:
+                probe.feed(bad); need += 1
+            if need >= 40 or need < 1:
+                return None
+            for i in range(need):
+                if i == need - 1 and not lifted:
+                    begin_reason()
+                res(bad)
+            if sim.flapping:
+                return None
+        else:
+            # end-soft-to-hard: n steady OK results, then `mx` equal non-OK results the last of which is hard AND ends the flapping
+            fit = []
+            for n in range(0, 30):
+                probe = _copy_sim(sim)
+                okk = True
+                for _ in range(n):
+                    if not probe.feed(0):
+                        okk = False
+                        break
+                if not okk:
+                    break
+                fl = [probe.feed(bad) for _ in range(mx)]
+                if all(fl[:-1]) and not fl[-1]:
+                    fit.append(n)
+            if not fit:
+                return None
+            n = rnd.choice(fit)
+            if reason not in ('ack',) and when == 'early':
+                begin_reason()
+            for _ in range(n):
+                res(0)
+            for i in range(mx):
+                if i == mx - 1 and not lifted:
+                    begin_reason()
+                res(bad)
+            if sim.flapping or not ob.hard:
+                return None
+        # what follows the decisive result
+        k = rnd.random()
+        if k < 0.3:
+            res(ob.state)
+        elif k < 0.5:
+            res(0)
+        elif k < 0.6 and not host:
+            res(3 if ob.state != 3 else 2)
+    if rnd.random() < 0.2:
+        op('fire')
+    # release
+    for what in lifted:
+        if what == 'dt':
+            undt()
+        elif what == 'ack':
+            op('unack via=api')
+        elif what == 'parent':
+            op('parent up=1')
+            res(ob.state)
+        elif what == 'pause':
+            op('pause p=0')
+    t[0] += 400
+    lines.append('now %d' % t[0])
+    lines.append('fire')
+    lines.append('fire')
+    return {'lines': lines, 'tags': {'family': 'flapping-toggle-on-hard-change', 'goal': goal, 'reason': reason}}
+
+
+def _copy_sim(sim):
+    c = FlapSim()
+    c.buf = list(sim.buf)
+    c.index, c.last, c.flapping = sim.index, sim.last, sim.flapping
+    return c
+
+
+def toggle_cases(rnd, n):
+    out = []
+    i = 0
+    tries = 0
+    while len(out) < n and tries < 4 * n:
+        tries += 1
+        goal = ('end-soft-to-hard', 'end-volatile-repeat', 'end-soft-to-hard', 'start-hard-change', 'end-volatile-repeat',
+                'end-soft-to-hard', 'end-steady-ok')[i % 7]
+        reason = TOGGLE_REASONS[(i // 7) % len(TOGGLE_REASONS)]
+        kind = ('host', 'svc')[(i + i // 7 + i // 49) % 2]
+        i += 1
+        c = toggle_case(rnd, kind, goal, reason)
+        if c is not None:
+            out.append(c)
+    return out
+
+
 def generate(seed, tier):
     rnd = random.Random(seed)
     cases = []
+    # flapping toggling on the very result that is a hard change: first in the list, so the extended search for a failing input starts with it
+    cases += toggle_cases(random.Random(seed * 7919 + 13), {'quick': 840, 'thorough': 8400, 'search': 2800}.get(tier, 840))
     # (length, start states, keep one in `stride` sequences); the thorough tier has the complete length-4 space
     plan = {'quick': [(4, ('pending', 'ok', 'critdt'), 4)],
             'thorough': [(4, ('pending', 'ok', 'crit', 'critdt'), 1), (5, ('pending', 'critdt'), 4)],
@@ -376,6 +675,8 @@ def extra_stats(cases, impl):
     steps = under = 0
     sent_p = sent_r = stashed = released = dismissed = flap_n = paused_steps = 0
     flap_withheld = stash_with_flap_pending = cases_stash_with_flap_pending = 0
+    tg = collections.Counter()
+    tg_by = collections.Counter()
     by = {'downtime': 0, 'ack': 0, 'unreachable': 0, 'pending': 0}
     for c in cases:
         il = impl.get(c['id'], [])
@@ -384,12 +685,17 @@ def extra_stats(cases, impl):
         dts = {}
         pdown = False
         prev_supp = 0
+        prev_fl = '0'
+        prev_o = {}
         hit = False
+        tag = c.get('tags', {})
+        flap_on = False     # with enable_flapping off the detector still runs, IsFlapping() is false
         for l in c['lines']:
             w = l.split()
             if w[0] == 'now':
                 now = int(w[1]); continue
             if w[0] == 'ckf_new':
+                flap_on = _kv(l).get('flap') == '1'
                 continue
             a = _kv(l)
             if w[0] == 'dt_add':
@@ -427,13 +733,34 @@ def extra_stats(cases, impl):
                     hit = True
             if (supp & 384) & ~(prev_supp & 384):
                 flap_withheld += 1
+            # flapping toggling on the very result that is a hard change (measured on the implementation's trace)
+            fl = ov.get('fl', '0')
+            if w[0] == 'crf' and fl != prev_fl and flap_on:
+                sent = 32 in nrs or 64 in nrs
+                stashed_now = bool((supp & 96) & ~(prev_supp & 96))
+                went_hard = ov.get('ty') == '1' and (prev_o.get('ty') == '0' or prev_o.get('st') != ov.get('st'))
+                if fl == '0':
+                    what = 'sent' if sent else 'stashed' if stashed_now else 'neither'
+                    tg['flapping_end_with_state_notification_' + what] += 1
+                    if went_hard and ov.get('st') != '0':
+                        tg['flapping_end_on_soft_to_hard_step'] += 1
+                    if sent or stashed_now:
+                        tg_by[tag.get('reason', 'other-families')] += 1
+                else:
+                    if went_hard:
+                        tg['flapping_start_on_hard_change'] += 1
+                        if sent or stashed_now:
+                            tg['flapping_start_on_hard_change_but_state_notification'] += 1
+            prev_fl = fl
+            prev_o = ov
             if w[0] == 'fire' and (prev_supp & 96) and not (supp & 96):
                 if 32 in nrs or 64 in nrs: released += 1
                 else: dismissed += 1
             prev_supp = supp
         if hit:
             cases_stash_with_flap_pending += 1
-    return {'flapping_toggles_withheld': flap_withheld, 'episodes_begun_while_flapping_bit_pending': stash_with_flap_pending,
+    return {'flapping_toggle_on_hard_change': dict(tg), 'flapping_end_with_state_notification_by_reason': dict(tg_by),
+            'flapping_toggles_withheld': flap_withheld, 'episodes_begun_while_flapping_bit_pending': stash_with_flap_pending,
             'cases_with_episode_begun_while_flapping_bit_pending': cases_stash_with_flap_pending,
             'steps': steps, 'steps_under_reason': under, 'steps_under_reason_fraction': round(under / max(1, steps), 3),
             'steps_by_reason': by, 'problem_requests': sent_p, 'recovery_requests': sent_r, 'suppression_episodes': stashed,
